@@ -67,6 +67,8 @@ func checkC08(c *Ctx) (string, error) {
 	checkKindExhaustive(c, ap, sp)
 	checkDescriptorLayout(c, "R08.3", sp, rw.RT("abi"))
 	checkSizeofOffsetsof(c, sp, ap)
+	checkOffsetsExtra(c, sp)
+	checkLayoutEquivalence(c, sp)
 	check32Bits(c, sp, w.Main("internal/build"))
 	checkBasicKindCast(c, ap, rw.RT("abi"))
 	checkMapSlotStride(c, "R08.7", sp)
